@@ -381,6 +381,8 @@ def monitor(sc, impl_lines):
                             fail("C05:payload", "message %d delivered with a payload that is neither sent nor its corruption" % mid)
                         elif not s["rates"]["corrupt"] > 0:
                             fail("C05:payload", "message %d corrupted with corruption rate 0" % mid)
+                        elif s["sn"] == s["dn"]:
+                            fail("C05:same_node", "message %d between processes of one node was delivered corrupted" % mid)
                     elif s["rates"]["corrupt"] >= 1.0 and s["sn"] != s["dn"] and corrupt(s["m"][1]) != s["m"][1]:
                         fail("C05:payload", "message %d delivered intact with corruption rate 1" % mid)
                     # ---- C06 arrival time
